@@ -1,0 +1,62 @@
+//go:build verif
+// +build verif
+
+package btc
+
+import (
+	"github.com/btcsuite/btcd/wire"
+	"github.com/polynetwork/poly/native"
+)
+
+// Exported wrappers around unexported functions of this package, compiled only with the build tag
+// `verif` (used by the verification harness in /verif; no behaviour change without the tag).
+
+// VerifNewCoinSelector builds a CoinSelector exactly as chooseUtxos does, with every field given.
+func VerifNewCoinSelector(sorted []*Utxo, mc, target uint64, maxP float64, txOuts []*wire.TxOut, k float64,
+	tries int64, feeRate uint64, m, n int) *CoinSelector {
+	return &CoinSelector{
+		sortedUtxos: &Utxos{Utxos: sorted},
+		mc:          mc,
+		target:      target,
+		maxP:        maxP,
+		txOuts:      txOuts,
+		k:           k,
+		tries:       tries,
+		feeRate:     feeRate,
+		m:           m,
+		n:           n,
+	}
+}
+
+// VerifTries returns the remaining search budget of the selector.
+func (selector *CoinSelector) VerifTries() int64 { return selector.tries }
+
+// VerifEstimateTxSize exposes estimateTxSize.
+func (selector *CoinSelector) VerifEstimateTxSize(selection []*Utxo) int {
+	return selector.estimateTxSize(selection)
+}
+
+// VerifChooseUtxos exposes chooseUtxos.
+func VerifChooseUtxos(service *native.NativeService, chainID uint64, amount int64, outs []*wire.TxOut, rk []byte,
+	m, n int) ([]*Utxo, int64, int64, error) {
+	return chooseUtxos(service, chainID, amount, outs, rk, m, n)
+}
+
+// VerifGetUtxos / VerifPutUtxos / VerifGetStxos expose the UTXO and STXO records of a redeem key.
+func VerifGetUtxos(service *native.NativeService, chainID uint64, key string) (*Utxos, error) {
+	return getUtxos(service, chainID, key)
+}
+
+func VerifPutUtxos(service *native.NativeService, chainID uint64, key string, utxos *Utxos) {
+	putUtxos(service, chainID, key, utxos)
+}
+
+func VerifGetStxos(service *native.NativeService, chainID uint64, key string) (*Utxos, error) {
+	return getStxos(service, chainID, key)
+}
+
+// VerifMakeBtcTx exposes makeBtcTx.
+func VerifMakeBtcTx(service *native.NativeService, chainID uint64, amounts map[string]int64, fromTxHash []byte,
+	fromChainID uint64, redeemScript, rk []byte) error {
+	return makeBtcTx(service, chainID, amounts, fromTxHash, fromChainID, redeemScript, rk)
+}
